@@ -294,7 +294,23 @@ pub fn run(ctx: &Ctx) -> Result<Evidence, String> {
     let sc_docs: Vec<Doc> = scoping_docs(&mut rng, ctx.tier.pick(150, 2000)).iter().map(Doc::new).collect();
     let ex_q = existence_queries();
     let sc_q = scoping_queries();
-    let ladders: Vec<(String, Doc)> = depth_ladders().into_iter().map(|(q, d)| (q, Doc::new(&d))).collect();
+    let mut ladder_cases = depth_ladders();
+    // filters over wide containers and long strings (size-dependent code paths)
+    for d in gen::boundary_docs() {
+        for q in gen::boundary_queries().iter().filter(|q| q.contains('?')) {
+            ladder_cases.push((q.to_string(), d.clone()));
+        }
+    }
+    {
+        let big: Vec<J> = (0..40).map(|i| J::int(i)).chain(vec![J::int(9007199254740992), J::int(9007199254740993), J::int(9007199254740992), J::int(i64::MAX), J::int(i64::MAX - 1), J::str("x"), J::str("x"), J::str("y")]).collect();
+        let d = J::Obj(vec![("want".into(), J::int(9007199254740993)), ("max".into(), J::int(i64::MAX - 1)), ("s".into(), J::str("x")), ("v".into(), J::Arr(big.clone())), ("o".into(), J::Obj(big.iter().enumerate().map(|(i, v)| (format!("m{:02}", i), v.clone())).collect()))]);
+        for base in ["$.v", "$.o"] {
+            for e in ["@ == $.want", "@ != $.want", "!(@ == $.want)", "@ >= $.want", "@ <= $.want && @ > 39", "@ == $.max || @ == $.s", "@ > $.max", "@ < $.want && @ > 9007199254740991"] {
+                ladder_cases.push((format!("{}[?{}]", base, e), d.clone()));
+            }
+        }
+    }
+    let ladders: Vec<(String, Doc)> = ladder_cases.into_iter().map(|(q, d)| (q, Doc::new(&d))).collect();
     let n_lad = ladders.len();
     let n_f = fs.len() * 2; // arr + obj
     let n_ex = ex_q.len();
@@ -304,9 +320,20 @@ pub fn run(ctx: &Ctx) -> Result<Evidence, String> {
     qcfg.filter_depth = 3;
     qcfg.names = ["a", "b", "k", "t", "x", "y", "n", "arr"].iter().map(|s| s.to_string()).collect();
     qcfg.union_pm = 0;
+    // names whose spelling needs no escape or only \\ and \/ (those are decoded by the library;
+    // the other escapes are the open escape finding) - inside filters, at every position
+    let mut qcfg2 = gen::QueryCfg::default();
+    qcfg2.filter_depth = 2;
+    qcfg2.union_pm = 0;
+    qcfg2.names = ["a\\b", "a/b", "\\", "/", "x y", "\u{e9}", "\"", "a.b", "[0]", "$", "@", "*", "0", "-1", "", "a", "\u{1f600}", "gr\u{f6}\u{df}e\\breite", "\u{446}\u{435}\u{43d}\u{430}/\u{448}\u{442}", "\u{e9}\\"].iter().map(|s| s.to_string()).collect();
+    qcfg2.strings = ["", "a", "a/b", "x y", "\u{e9}"].iter().map(|s| s.to_string()).collect();
+    let mut dcfg2 = gen::DocCfg::default();
+    dcfg2.keys = qcfg2.names.clone();
+    let hn_docs: Vec<Doc> = (0..ctx.tier.pick(120, 1500)).map(|_| Doc::new(&gen::random_doc(&mut rng, &dcfg2))).collect();
+    let n_hn = ctx.tier.pick(30_000, 1_500_000);
     let seed = ctx.seed;
 
-    let acc = par_run(ctx, n_f + n_ex + n_sc + n_rand + n_lad, |i, acc: &mut Acc| {
+    let acc = par_run(ctx, n_f + n_ex + n_sc + n_rand + n_lad + n_hn, |i, acc: &mut Acc| {
         let (text, doc, fam, formula): (String, &Doc, &str, Option<Or>);
         if i < n_f {
             let f = &fs[i / 2];
@@ -325,6 +352,15 @@ pub fn run(ctx: &Ctx) -> Result<Evidence, String> {
             text = sc_q[k % sc_q.len()].to_string();
             doc = &sc_docs[k / sc_q.len()];
             fam = "scoping";
+            formula = None;
+        } else if i >= n_f + n_ex + n_sc + n_rand + n_lad {
+            let mut r = Rng::stream(seed, 77_000 + i as u64);
+            let f = gen::random_or(&mut r, &qcfg2, 2, 2);
+            let mut sp = Spelling::canonical();
+            sp.names = *r.pick(&[oracle::render::NameStyle::Single, oracle::render::NameStyle::Double, oracle::render::NameStyle::Shorthand]);
+            text = render(&Query::root(vec![Segment { descendant: r.chance(1, 5), selectors: vec![Selector::Filter(f)] }]), &mut sp);
+            doc = &hn_docs[r.below(hn_docs.len() as u64) as usize];
+            fam = "hostile-names-in-filters";
             formula = None;
         } else if i >= n_f + n_ex + n_sc + n_rand {
             let (q, d) = &ladders[i - n_f - n_ex - n_sc - n_rand];
